@@ -156,7 +156,7 @@ def as_int(v):
         return as_int(v.fields[0])
     if isinstance(v, EnumV) and not v.payloads:
         return v.disc
-    if isinstance(v, OpaqueV) and type_head(v.ty) == "Capacity":
+    if isinstance(v, OpaqueV) and type_head(v.ty) in ("Capacity", "EpochNumberWithFraction", "Since"):
         return Ctx.LIVE.int(v.name + ".0", "u64").t
     raise Inconclusive(f"not an int: {v}")
 
